@@ -108,6 +108,8 @@ def r_keykinds(ctx):
         if fn0 is not None:
             decided.add(qualname(fn0))
     except AnalysisError as ex:
+        if isinstance(ex, leafprog.Undecided):
+            raise
         ctx.notes.append("R-KEYKINDS: post-solve program: %s -- structural clauses applied" % ex)
     try:
         cons = find_consumers(ctx.repo)
@@ -199,6 +201,8 @@ def r_leafreg(ctx):
             leafprog.r_assignment_program(ctx)
             ctx._assignprog_done = True
     except AnalysisError as ex:
+        if isinstance(ex, leafprog.Undecided):
+            raise
         ctx.notes.append("R-LEAFREG: %s -- shape rules applied instead" % ex)
         _leafreg_assign_shape(ctx)
 
